@@ -227,10 +227,6 @@ func (jc *JobCtx) Sched(o SchedOpts, body func(), check func(r *vrt.Result) vrt.
 			rep.Error = "NONDETERMINISM in " + jc.Job.Name + ": " + v.Verdict.Msg
 			return
 		}
-		if v.Verdict.Kind == "horizon" {
-			// a tiny closed driver that is still taking steps after the horizon is not terminating
-			v.Verdict.Kind = "hang"
-		}
 		rep.violate(Viol{Kind: v.Verdict.Kind, Msg: v.Verdict.Msg, Site: v.Verdict.Site, Job: jc.Job.Name, Choices: v.Choices, Bound: boundStr})
 	}
 }
